@@ -19,8 +19,12 @@ without the fault gives the same database and the same graph as the fault-free r
 Histories whose fault-free flush fails by itself (duplicate key, dangling reference) are natural faults: the same
 recovery checks apply, without the re-run.
 
-Mutations caught (each gives VIOLATION lines; see report):
-  see bottom of file docstring list MUTATIONS.
+Mutations caught (VF_REPO=/tmp/wt-orm2):
+  * SessionTransaction._restore_snapshot: objects inserted by an earlier flush of the transaction not expunged -> "states" / "attributes"
+  * SessionTransaction._restore_snapshot: only still-modified objects expired (flushed ones keep new values) -> "attributes", "redo-rows"
+  * SessionTransaction._restore_snapshot: deletes flushed earlier in the transaction not reverted -> "states", "redo"
+  * SessionTransaction.rollback: root transaction not rolled back when the flush subtransaction fails -> "pre-rollback", "rollback", "exception"
+  * Session._flush: finalize_flush_changes + clearing the transaction's _new before the after_flush hooks -> "states", "attributes"
 """
 import sqlite3
 
@@ -50,7 +54,7 @@ META = dict(
         quick="worlds U1(2 cascades) U2 U3 U5 U7 U8; histories <= 2 operations after the populated committed root (<= 1 after the other roots), final flush and commit; "
         "every DML statement position x {IntegrityError, OperationalError alternating} + the first SELECT for flush and commit; for flush also every "
         "invocation of the before_* hooks and session hooks and the last invocation of the after_* mapper hooks",
-        thorough="plus U1(all) U4 U5(passive_updates=False); histories <= 3 operations after the populated root with autoflush (<= 2 elsewhere), every statement position x both exception classes, every hook invocation",
+        thorough="plus U1(all) U4 U5(passive_updates=False); histories <= 3 operations after the populated root with autoflush for 5 worlds (<= 2 elsewhere), every statement position x both exception classes, every hook invocation",
     ),
 )
 
@@ -70,6 +74,7 @@ def world_keys(tier):
 
 
 NPART = 4
+DEEP = (("U1", c30.SU), ("U1", c30.ORPH), ("U3", c30.ORPH), ("U2", c30.ALL), ("U8", c30.ALL))
 
 
 def shards(tier, seed):
@@ -82,7 +87,7 @@ def shards(tier, seed):
                 if tier == "quick":
                     depth = 2 if ri == 1 else 1
                 else:
-                    depth = 3 if (ri == 1 and af) else 2
+                    depth = 3 if (ri == 1 and af and wk in DEEP) else 2
                 for part in range(NPART if depth >= 2 else 1):
                     out.append(dict(world=wk, root=ri, autoflush=af, depth=depth, both=(tier != "quick"), part=part, nparts=NPART if depth >= 2 else 1))
     return out
@@ -97,14 +102,15 @@ def enumerate_histories(w, root, depth, af):
     pkv = ("u9", "u2") if w.key[0] == "U5" else ()
     seen = {m0.canon()}
     frontier = [(tuple(root), m0)]
-    for d in range(depth + 1):
+    for d in range(depth + 2):
         nxt = []
         for h, ms in frontier:
             if any(o.life == "P" or o.marked for o in ms.objs.values()) or ms.dirty:
                 yield h, ms
-            if d == depth:
+            if d > depth or (d == depth and not (h and h[-1][0] == "flush")):
                 continue
-            for op in ow.ref.enabled_ops(ms, names, kinds=TXN_KINDS, pk_values=pkv, af=af):
+            # (one more operation after a flush on the last level: transactions with an earlier, successful flush)
+            for op in ow.ref.enabled_ops(ms, names, kinds=TXN_KINDS if d < depth else tuple(k for k in TXN_KINDS if k != "flush"), pk_values=pkv, af=af):
                 post, exp = ow.model_step(ms, op, af=af)
                 if post is None or post.dead:
                     continue
@@ -192,6 +198,9 @@ def recovery_problems(rp, before_committed, lives_before_fault, F):
     try:
         run.session.connection()
         refused = False
+        seen = run.rows()
+        if getattr(rp, "txn_view", None) is not None and seen != rp.txn_view:
+            probs.append(("pre-rollback", "the session stays usable after the failed flush and shows part of it: " + ow.diff_rows(seen, rp.txn_view)))
     except sa_exc.PendingRollbackError:
         refused = True
     except sa_exc.SQLAlchemyError as e:
@@ -299,6 +308,7 @@ def run_fault(w, af, h, F, f, ref):
         run = rp.run
         before = run.rows_committed()
         lives = {n: run.life(n) for n in run.objs}
+        rp.txn_view = run.rows()
         if f[0] == "stmt":
             out = final(run, F, at=("dml", f[1]), exc=getattr(sqlite3, f[2]))
         elif f[0] == "sel":
